@@ -54,7 +54,7 @@ package agreement
 //   legal votes must be accepted (nothing else is required to be accepted: e.g. over-long
 //   bundles are rejected by the code, which is not an alarm).
 // Not covered: more than 4 accounts, more than one equivocation pair in a base bundle,
-//   context cancellation, ledger errors, key-validity windows (VoteFirst/LastValid),
+//   context cancellation, ledger errors (key-validity windows: see verif_c04_keywindow_test.go),
 //   weights other than stake (p < 1 sortition), the PKSigOld field (unused by design).
 // Unexported identifiers used: unauthenticatedBundle(.verify,.verifyAsync), voteAuthenticator,
 //   equivocationVoteAuthenticator, makeBundle, makeVote, membership, rawVote,
@@ -76,6 +76,8 @@ package agreement
 //      (own; only visible with per-step thresholds, variant w123mix)
 //   8. vote.go: bottom allowed in soft/cert votes             -> C04:vote-accepted-invalid
 //   9. certificate.go: `if c.Step != cert` dropped            -> C04:cert-accepted-wrong-claim
+//  10. seeded /verif/seeded/C04-r2A: vote.go compares VoteLastValid with BalanceRound(round)
+//      -> key-window family, C04:vote-accepted-outside-key-window / C04:accepted-outside-key-window
 
 import (
 	"context"
@@ -947,6 +949,11 @@ func TestVerif_C04(t *testing.T) {
 		}
 		if json.Unmarshal(raw, &req) == nil && req.Index != nil {
 			replayVariant, replayIndex = req.Variant, *req.Index
+		}
+	}
+	if replayVariant == "" || replayVariant == "kwin" {
+		if err := c04KeyWindow(r); err != nil {
+			t.Fatalf("harness setup (key-window family): %v", err)
 		}
 	}
 	var mu sync.Mutex
